@@ -355,7 +355,7 @@ func (v *Verifier) verifyFunc(name string) *FuncResult {
 		}
 	}
 	if con != nil {
-		for _, rq := range append(append([]*Clause(nil), con.Requires...), con.Relies...) {
+		for _, rq := range append(append(append([]*Clause(nil), con.Requires...), con.Relies...), con.Captures...) {
 			t, err := env.evalBool(rq.E)
 			if err != nil {
 				x.errorf("requires %q: %v", rq.Src, err)
